@@ -158,3 +158,9 @@ reg("C18", "checks.tz", dict(quick=1200, thorough=25000), dict(quick=55, thoroug
     "aware fixed offset / aware zone / real file mtime reported by uberjob.stores.get_modified_time, rendering of "
     "fresh_time); every variant must rebuild exactly the set computed on the instants",
     assumptions=["zoneinfo database of the sandbox"], chunk=4, recheck_every=25)
+
+reg("C19", "checks.attribution", dict(quick=2600, thorough=60000), dict(quick=55, thorough=900), "exploration",
+    ENGINE_RULE + "; every symbolic call / registry entry is created through helper functions nested -1..6 deep "
+    "(35% of the cases build the plan in a bare thread so that the whole stack is shorter than the limit) and the "
+    "expected frames are recorded with sys._getframe at the creation line; one fault kind per case (call, store "
+    "read / write / read-back, modified-time query, failing unpack, failing inserted gather)")
